@@ -11,10 +11,13 @@ trip for one feature set.
 * `fixed`    : fields with `init=False` (fixed values)
 * `anyAttrs` : an `Attributes` map (`##any`, `##other`, …)
 * `inherit`  : an element var of declared class `C` holds an instance of a proper subclass (`xsi:type`)
+* `wildcard` : one list wildcard (`List[object]`, any `namespace`) per class, holding generic elements
+               (`AnyElement` trees without tails)
 
 Core Lean only (the driver evaluates the predicates on exported real universes and instances).
 -/
 import XsdataModel.Bind.F1
+import XsdataModel.Generic.Basic
 
 namespace Xs.Bind.FN
 open Py Xs.Bind Xs.Bind.F1
@@ -28,6 +31,7 @@ structure Feat where
   fixed : Bool := false
   anyAttrs : Bool := false
   inherit : Bool := false
+  wildcard : Bool := false
 deriving DecidableEq, Repr
 
 /-! ### metadata -/
@@ -74,18 +78,6 @@ def textVarOK (ft : Feat) (ci : ClassInfo) (v : XmlVar) : Bool :=
    | none => false) &&
   (v.init || fixedOK v) && fieldAgreesN ci v
 
-/-- the classes whose instances an element var of declared class `c` may hold -/
-def classesFor (ft : Feat) (Γ : Ctx) (c : ClassId) : List ClassId :=
-  if ft.inherit then c :: (Γ.classes.map (·.id)).filter (fun k => k ≠ c && Γ.isSubclass k c) else [c]
-
-/-- `nsAgree` of fragment F1 for every class a var may hold (see `classesFor`) -/
-def nsAgreeN (ft : Feat) (Γ : Ctx) (m : XmlMeta) (q : QN) : Bool :=
-  m.elementVars.all fun w =>
-    match w.clazz with
-    | none => true
-    | some c => (classesFor ft Γ c).all fun k =>
-        decide ((metaOf Γ k (targetUri q)).map dropQ = (metaOf Γ k (targetUri m.qname)).map dropQ)
-
 def elemVarOK (ft : Feat) (Γ : Ctx) (m : XmlMeta) (ci : ClassInfo) (v : XmlVar) : Bool :=
   v.isElement && varBase ft v && decide (1 ≤ v.index) &&
   decide (m.elements.find? (·.1 = v.qname) = some (v.qname, [v])) &&
@@ -99,20 +91,23 @@ def elemVarOK (ft : Feat) (Γ : Ctx) (m : XmlMeta) (ci : ClassInfo) (v : XmlVar)
      (match primTypeOf v with
       | some t =>
         if v.tokens || v.listElement then
-          decide (v.default = .listFactory) &&
-          -- an empty nillable list of token lists is written as one `xsi:nil` element
-          !(v.tokens && v.listElement && v.nillable)
+          decide (v.default = .listFactory)
         else scalarDefault v.default t && (!v.nillable || decide (v.default = .none))
       | none => false)
    | some c =>
      !v.tokens && decide (v.types = [.cls c]) &&
      (if v.listElement then decide (v.default = .listFactory) else decide (v.default = .none)) &&
-     (metaOf Γ c (targetUri m.qname)).isSome &&
-     (classesFor ft Γ c).all (fun k =>
-       match metaOf Γ k (targetUri m.qname) with
-       | some m' => nsAgreeN ft Γ m' v.qname
-       | none => true)) &&
+     (metaOf Γ c (targetUri m.qname)).isSome) &&
   (v.init || fixedOK v) && fieldAgreesN ci v
+
+/-- a list wildcard: `List[object]` with default `[]`, no choices; its own (synthetic) qname leads
+`find_children` back to it and to nothing else -/
+def wildVarOK (m : XmlMeta) (ci : ClassInfo) (v : XmlVar) : Bool :=
+  v.isWildcard && v.listElement && v.init && !v.mixed && !v.tokens && !v.nillable && !v.isClazzUnion &&
+  v.wrapperQName.isNone && v.sequence.isNone && v.elements.isEmpty && v.clazz.isNone &&
+  decide (v.default = .listFactory) && decide (1 ≤ v.index) && !v.qname.isEmpty &&
+  decide (m.findChildren v.qname = [v]) && !m.wrappers.any (·.1 = v.qname) && m.text.isNone &&
+  fieldAgreesN ci v
 
 /-- an `Attributes` map: a `dict` field with default `{}` -/
 def mapVarOK (ci : ClassInfo) (v : XmlVar) : Bool :=
@@ -142,7 +137,10 @@ def seqOK : Nat → List XmlVar → Bool
 /-- one exported `XmlMeta` of class `ci` -/
 def metaOK (ft : Feat) (Γ : Ctx) (ci : ClassInfo) (m : XmlMeta) : Bool :=
   decide (m.clazz = ci.id) && (!m.nillable || ft.nillable) && !m.qname.isEmpty &&
-  m.wildcards.isEmpty && m.choices.isEmpty &&
+  -- at most one wildcard, a list
+  (m.wildcards.isEmpty ||
+    (ft.wildcard && (match m.wildcards with | [wv] => wildVarOK m ci wv | _ => false))) &&
+  m.choices.isEmpty &&
   -- at most one `Attributes` map
   (m.anyAttributes.isEmpty ||
     (ft.anyAttrs && (match m.anyAttributes with | [av] => mapVarOK ci av | _ => false))) &&
@@ -152,7 +150,7 @@ def metaOK (ft : Feat) (Γ : Ctx) (ci : ClassInfo) (m : XmlMeta) : Bool :=
   m.attributeVars.all (fun v => attrVarOK ft m ci v || (decide (m.anyAttributes = [v]) && mapVarOK ci v)) &&
   decide ((m.attributeVars.map (·.qname)).Nodup) &&
   (match m.text with
-   | none => m.elementVars.all (elemVarOK ft Γ m ci)
+   | none => m.elementVars.all (fun v => elemVarOK ft Γ m ci v || decide (m.wildcards = [v]))
    | some tv => decide (m.elementVars = [tv]) && textVarOK ft ci tv) &&
   decide ((m.elementVars.map (·.index)).Nodup) &&
   decide ((m.elementVars.map (·.qname)).Nodup) &&
@@ -218,8 +216,7 @@ def textValOK (e : BEnv) (ci : ClassInfo) (var : XmlVar) (nil : Bool) (x : Val) 
   (var.init || fixedVal var x) &&
   match primTypeOf var with
   | some t =>
-    -- an empty token list in an `xsi:nil` element comes back as `None`
-    if var.tokens then tokensOK e t x && (!nil || x.truthy)
+    if var.tokens then tokensOK e t x
     else
       (match x with
        | .none => nil || fdNone ci var.name
@@ -232,10 +229,38 @@ def primItemOK (var : XmlVar) (t : PT) : Val → Bool
   | .none => var.nillable        -- `xsi:nil`; comes back as the var default, which is `None`
   | .prim p =>
     primHasType p t &&
-    -- an empty `str` comes back as the var default, or as `None` under a nillable var
-    (decide (p ≠ .str []) ||
-      (!var.nillable && (var.listElement || decide (var.default = .none) ||
-        decide (var.default = .val (.str [])))))
+    -- an empty `str` comes back as the var default (`None` under a nillable var: then the empty
+    -- element without `xsi:nil` is `""`)
+    (decide (p ≠ .str []) || var.listElement || decide (var.default = .none) ||
+      decide (var.default = .val (.str [])))
+  | _ => false
+
+mutual
+/-- a generic element (`AnyElement`) in the form the parser builds, without tails: a name, a text
+(`""`, not `None`, when there is none; not white space only next to children), attributes the generic
+model keeps verbatim, children of the same form -/
+def canonAny (e : BEnv) (Γ : Ctx) : Val → Bool
+  | .any (some q) (some t) none a kids =>
+    !q.isEmpty && Xs.Generic.keysDistinct a &&
+    a.all (fun kv => anyAttrValOK kv.2 && !(kv.2.head? = some '{' && (kv.1 = xsiType || isDatatype Γ kv.2))) &&
+    (kids.isEmpty || t.isEmpty || !(e.py.strip t).isEmpty) && canonAnyList e Γ kids
+  | _ => false
+def canonAnyList (e : BEnv) (Γ : Ctx) : List Val → Bool
+  | [] => true
+  | v :: vs => canonAny e Γ v && canonAnyList e Γ vs
+end
+
+/-- an item of the list wildcard `wv` of `m`: a generic element that `ElementNode.child` hands to the
+wildcard (its name is no declared element or wrapper, lies in the namespaces of the wildcard and is
+not the qualified name of a known class, which `build_node` would instantiate instead; no `xsi:`
+control attributes) -/
+def wildItemOK (e : BEnv) (Γ : Ctx) (m : XmlMeta) (wv : XmlVar) : Val → Bool
+  | .any (some q) t tl a kids =>
+    decide (m.elements.find? (·.1 = q) = none) && !m.wrappers.any (·.1 = q) &&
+    matchNamespace wv.namespaces q &&
+    decide ((if wv.processContents ≠ "skip".toList then Γ.findType q else none) = none) &&
+    a.all (fun kv => decide (kv.1 ≠ xsiType) && decide (kv.1 ≠ xsiNil)) &&
+    canonAny e Γ (.any (some q) t tl a kids)
   | _ => false
 
 /-- the name of a class survives as an `xsi:type` value (`prefix:name` resolved by
@@ -247,24 +272,22 @@ def typeNameOK (e : BEnv) (t : QN) : Bool :=
 
 /-- an object under an element var of declared class `c` (`pns`: the namespace the parser looks the
 metadata up under): an instance of `c` itself, or (`inh`) of a proper subclass `cls` whose qualified
-name differs from the element name (otherwise no `xsi:type` is written) and leads
-`XmlContext.fetch` from `c` back to `cls`.  `rec cls nl xt` checks the instance. -/
-def objOK (inh : Bool) (Γ : Ctx) (pns : Option Str) (var : XmlVar) (c : ClassId)
-    (rec : ClassId → Bool → Option QN → Val → Bool) (y : Val) : Bool :=
+name leads `XmlContext.fetch` from `c` back to `cls`.  `rec cls xt` checks the instance. -/
+def objOK (inh : Bool) (Γ : Ctx) (pns : Option Str) (c : ClassId)
+    (rec : ClassId → Option QN → Val → Bool) (y : Val) : Bool :=
   match y with
   | .obj cls _ =>
-    if cls = c then rec c var.nillable none y
+    if cls = c then rec c none y
     else
       inh && Γ.isSubclass cls c &&
       (match metaOf Γ cls pns with
        | some ms =>
          (match ms.targetQName with
           | some t =>
-            decide (t ≠ var.qname) &&
             (match Γ.fetch c pns (some t) with
              | .ok m2 => decide (m2 = ms)
              | .error _ => false) &&
-            rec cls var.nillable (some t) y
+            rec cls (some t) y
           | none => false)
        | none => false)
   | _ => false
@@ -275,8 +298,13 @@ def clsItemOK (var : XmlVar) (clsNillable : Bool) (rec : Val → Bool) : Val →
   | y => rec y
 
 def elemValOK (inh : Bool) (e : BEnv) (Γ : Ctx) (m : XmlMeta) (ci : ClassInfo) (var : XmlVar)
-    (rec : ClassId → Bool → Option QN → Val → Bool) (x : Val) : Bool :=
+    (rec : ClassId → Option QN → Val → Bool) (x : Val) : Bool :=
   (var.init || fixedVal var x) &&
+  if var.isWildcard then
+    (match x with
+     | .list xs => xs.all (wildItemOK e Γ m var)
+     | _ => false)
+  else
   match var.clazz with
   | none =>
     (match primTypeOf var with
@@ -302,12 +330,12 @@ def elemValOK (inh : Bool) (e : BEnv) (Γ : Ctx) (m : XmlMeta) (ci : ClassInfo) 
      | some m' =>
        if var.listElement then
          (match x with
-          | .list xs => xs.all (clsItemOK var m'.nillable (objOK inh Γ (targetUri m.qname) var c rec))
+          | .list xs => xs.all (clsItemOK var m'.nillable (objOK inh Γ (targetUri m.qname) c rec))
           | _ => false)
        else
          (match x with
           | .none => (var.nillable && !m'.nillable) || (!var.nillable && fdNone ci var.name)
-          | .obj .. => objOK inh Γ (targetUri m.qname) var c rec x
+          | .obj .. => objOK inh Γ (targetUri m.qname) c rec x
           | _ => false))
 
 /-- the text value is written as character data (possibly empty): the start tag is flushed
@@ -317,27 +345,13 @@ def textHasData : Val → Bool
   | .list (_ :: _) => true
   | _ => false
 
-/-- the field value produces at least one child element (an empty wrapper element is not counted) -/
-def emitsChild (var : XmlVar) (x : Val) : Bool :=
-  match x with
-  | .none => var.nillable
-  | .list xs => !xs.isEmpty || (var.tokens && var.nillable)
-  | _ => true
-
-/-- the element must not be written as `xsi:nil`: under a nillable var a class that is not nillable
-itself would come back as `None`, and an `Attributes` map would capture the `xsi:nil` attribute -/
-def needContent (nl : Bool) (m : XmlMeta) : Bool :=
-  (nl && !m.nillable) || ((nl || m.nillable) && !m.anyAttributes.isEmpty)
-
-/-- `v` is an instance of class `c` (metadata built under `pns`) inside the fragment; `nl` says
-that the element is written for a nillable var (then a class that is not nillable itself needs
-some content, otherwise the element is `xsi:nil` and comes back as `None`).
-The `Nat` argument bounds the nesting depth. -/
-def valObjN (inh : Bool) (e : BEnv) (Γ : Ctx) : Nat → Option Str → ClassId → Bool → Option QN → Val → Bool
-  | 0, _, _, _, _, _ => false
-  | n + 1, pns, c, nl, xt, .obj cls fields =>
+/-- `v` is an instance of class `c` (metadata built under `pns`) inside the fragment, written with
+`xsi:type` `xt`.  The `Nat` argument bounds the nesting depth. -/
+def valObjN (inh : Bool) (e : BEnv) (Γ : Ctx) : Nat → Option Str → ClassId → Option QN → Val → Bool
+  | 0, _, _, _, _ => false
+  | n + 1, pns, c, xt, .obj cls fields =>
     decide (cls = c) &&
-    -- written with `xsi:type`: the name must survive, and an `Attributes` map would capture it
+    -- written with `xsi:type`: the name must survive
     (match xt with | some t => inh && typeNameOK e t | none => true) &&
     (match Γ.find c with
      | none => false
@@ -346,23 +360,18 @@ def valObjN (inh : Bool) (e : BEnv) (Γ : Ctx) : Nat → Option Str → ClassId 
        | none => false
        | some m =>
          decide (fields.map (·.1) = ci.fields.map (·.name)) &&
-         (xt.isNone || m.anyAttributes.isEmpty) &&
          m.attributeVars.all (fun var => attrValOK e Γ m ci var (look fields var.name)) &&
          (match m.text with
-          | some tv =>
-            textValOK e ci tv (nl || m.nillable) (look fields tv.name) &&
-            (!needContent nl m || textHasData (look fields tv.name))
+          | some tv => textValOK e ci tv m.nillable (look fields tv.name)
           | none =>
             m.elementVars.all (fun var =>
-              elemValOK inh e Γ m ci var (valObjN inh e Γ n (targetUri m.qname)) (look fields var.name)) &&
-            (!needContent nl m ||
-              m.elementVars.any (fun var => emitsChild var (look fields var.name)))))
-  | _ + 1, _, _, _, _, _ => false
+              elemValOK inh e Γ m ci var (valObjN inh e Γ n (targetUri m.qname)) (look fields var.name))))
+  | _ + 1, _, _, _, _ => false
 
 /-- the value-level side of the fragments (`v.size` bounds the nesting depth of `v`); `inh`: element
 vars may hold instances of proper subclasses of their declared class -/
 def valOKI (inh : Bool) (e : BEnv) (Γ : Ctx) (c : ClassId) (v : Val) : Bool :=
-  valObjN inh e Γ v.size none c false none v
+  valObjN inh e Γ v.size none c none v
 
 /-- every object is an instance of the declared class of its var -/
 def valOK (e : BEnv) (Γ : Ctx) (c : ClassId) (v : Val) : Bool := valOKI false e Γ c v
